@@ -139,12 +139,16 @@ def module_text(ir, k, nstmts=None):
     out.append('print(("ev", "load", %d));' % k)
     out.append("var gv = %d;" % (k * 100 + 100))
     out.append("var own = %d;" % k)
+    # the module rebinds a built-in name for itself: later imports of the module must not undo that
+    out.append("fn clock() { return %d; }" % (5000 + k))
+    out.append("var Range = %d;" % (6000 + k))
+    out.append("fn shadowed() { return (clock(), Range); }")
     out.append("fn getg() { return gv; }")
     out.append("fn setg(x) { gv = x; return gv; }")
     out.append('fn peek() { var r = "leak"; try { r = main_only; } catch e { r = type(e); } return r; }')
     out.append('fn peek_class() { var r = "leak"; try { r = MainOnlyClass; r = "leak"; } catch e { r = type(e); } return r; }')
     out.append('fn peek_fn() { var r = "leak"; try { r = record; r = "leak"; } catch e { r = type(e); } return r; }')
-    out.append('fn builtins() { return (type(1) == Num, [1, 2].len(), "ab".len(), [Fiber, Vec, HashMap, Range].len()); }')
+    out.append('fn builtins() { return (type(1) == Num, [1, 2].len(), "ab".len(), [Fiber, Vec, HashMap, Tuple].len()); }')
     if m["lazy"] is not None:
         t = ir["mods"][m["lazy"]]
         out.append('fn lazy() { import "%s"; return %s.getg(); }' % (t["path"], t["bind"]))
@@ -221,7 +225,7 @@ def render(ir):
     e('    if type(r) == String { print(("ev", "fib", k, r)); } else { print(("ev", "fib", k, r != nil)); record(k, r); }')
     e("  } else if a == 8 {")
     e("    if mods[k] != nil {")
-    e('      print(("ev", "iso", k, mods[k].peek(), mods[k].builtins(), mods[k].own, mods[k].peek_class(), mods[k].peek_fn()));')
+    e('      print(("ev", "iso", k, mods[k].peek(), mods[k].builtins(), mods[k].own, mods[k].peek_class(), mods[k].peek_fn(), mods[k].shadowed()));')
     e('      try { mods[k].MainOnlyClass; print(("ev", "attr-leak", k)); } catch e { print(("ev", "attr2", k, type(e))); }')
     e('      try { mods[k].no_such_attribute; } catch e { print(("ev", "attr", k, type(e))); }')
     e('      try { print(("ev", "leak", own)); } catch e { print(("ev", "noleak", type(e))); }')
@@ -453,7 +457,7 @@ def model(ir, tape, faults, chooser=None):
             elif a == 8:
                 if mods[k] is not None:
                     ev.append([s("iso"), num(k), cls("NameError"), tup(b(True), num(2), num(2), num(4)), num(k),
-                               cls("NameError"), cls("NameError")])
+                               cls("NameError"), cls("NameError"), tup(num(5000 + k), num(6000 + k))])
                     ev.append([s("attr2"), num(k), cls("AttributeError")])
                     ev.append([s("attr"), num(k), cls("AttributeError")])
                     ev.append([s("noleak"), cls("NameError")])
